@@ -30,7 +30,7 @@ def runMEdits : Hist → List MEdit → Hist
 /-- every edit of the run is executable when its turn comes -/
 def MEditsOk (H : Home) : Hist → List MEdit → Prop
   | _, [] => True
-  | h, e :: es => GoodOp3 H h.tw h.doc (e.op h.next) ∧ MEditsOk H (doMEdit h e) es
+  | h, e :: es => GoodOp3 H noTw h.doc (e.op h.next) ∧ MEditsOk H (doMEdit h e) es
 
 /-- the recorded documents of a run, oldest first -/
 def mstates : Hist → List MEdit → List Doc
@@ -61,11 +61,30 @@ theorem MEditsOk_append {H : Home} : ∀ {a b : List MEdit} {h : Hist}, MEditsOk
 
 /-! ### bookkeeping of a forward edit -/
 
+theorem GoodOp3.par_bound {H : Home} {tw : Ticket → Bool} {d : Doc} {L : Int} {op : UOp} (g : GoodOp3 H tw d op)
+    (bd : Bounded d L) : op.par.lamport ≤ L := by
+  cases op with
+  | add p prev val ts =>
+    obtain ⟨l, ga⟩ := g
+    exact absNode_some_bound bd (by simp only [UOp.par]; rw [ga.hp]; simp)
+  | remove p u ts =>
+    rcases g with ⟨l, gd⟩ | ⟨f, gr⟩
+    · exact absNode_some_bound bd (by simp only [UOp.par]; rw [gd.hp]; simp)
+    · exact absNode_some_bound bd (by simp only [UOp.par]; rw [gr.hp]; simp)
+  | set p k val ts =>
+    obtain ⟨f, gs⟩ := g
+    exact absNode_some_bound bd (by simp only [UOp.par]; rw [gs.hp]; simp)
+  | increase c delta ts =>
+    obtain ⟨l, v, q, fq, hc, _⟩ := g
+    exact absNode_some_bound bd (by simp only [UOp.par]; rw [hc]; simp)
+  | move => exact g.elim
+  | arraySet => exact g.elim
+
 theorem inv3_do_finish {H : Home} {g : Hist} {ru rr : List UOp} {past future : List Doc} {op : UOp} {d' : Doc}
     (i : Inv3 H g.lamport id g ru rr past g.doc future)
     (hdo : doChange g [op] =
       { g with doc := d', undo := push g.undo [inv3 H g.doc op], redo := [], lamport := g.lamport + 1 })
-    (hg : GoodOp3 H g.tw g.doc op) (hib : idBound3 op (g.lamport + 1))
+    (hg : GoodOp3 H noTw g.doc op) (hib : idBound3 op (g.lamport + 1))
     (hwf : WF H d') (hbd : Bounded d' (g.lamport + 1)) (hpl : PlainArrs d' (g.lamport + 1))
     (hsk : ∀ t, skel d' t = skel g.doc t) (hnode : absNode d' = aexec3 H (absNode g.doc) op)
     (hqa : ∀ a, addId? (inv3 H g.doc op) = some a →
@@ -81,7 +100,7 @@ theorem inv3_do_finish {H : Home} {g : Hist} {ru rr : List UOp} {past future : L
     rcases hcase with rfl | ⟨rfl, _⟩
     · exact List.Sublist.refl _
     · exact addIds_dropLast_sublist ru
-  have hch2 : ChainM H g.tw (g.lamport + 1) ru2 g.doc past := by
+  have hch2 : ChainM H noTw (g.lamport + 1) ru2 g.doc past := by
     rcases hcase with rfl | ⟨rfl, _⟩
     · exact i.chU.mono (by omega)
     · exact (i.chU.mono (by omega)).dropLast
@@ -94,7 +113,7 @@ theorem inv3_do_finish {H : Home} {g : Hist} {ru rr : List UOp} {past future : L
   refine ⟨inv3 H g.doc op :: ru2, ?_, hsk, length_after_push hcase⟩
   refine
     { wf := hwf, bd := hbd, pl := hpl, hN := Int.le_refl _, hN0 := (show 0 ≤ g.lamport + 1 by omega),
-      twb := fun t ht => by have := i.twb t ht; show t.lamport ≤ g.lamport + 1; omega, wfc := hwf,
+      wfc := hwf,
       bdc := hbd, plc := hpl,
       eskel := fun _ => rfl, sim := Sim.refl _ _, rfix := fun _ _ => rfl, rhead := rfl,
       rng := fun t ht => ht, rnew := fun _ _ => Or.inl rfl, rarr := fun _ _ h => absurd rfl h,
@@ -103,7 +122,7 @@ theorem inv3_do_finish {H : Home} {g : Hist} {ru rr : List UOp} {past future : L
   · show push g.undo _ = _
     rw [push_eq, hurest, hpt, stackOf_cons, fullRen_id]; rfl
   · exact ⟨⟨i.wf, i.bd.mono (by omega), i.pl.mono (by omega), hgood.1, hgood.2.1, fun t => (hsk t).symm,
-      hgood.2.2⟩, hch2⟩
+      hgood.2.2, by rw [inv3_par]; have := hg.par_bound i.bd; omega⟩, hch2⟩
   · cases hqid : addId? (inv3 H g.doc op) with
     | none => rw [addIds_cons_none hqid]; exact List.Nodup.sublist hsub2 i.uniqU
     | some a =>
@@ -126,7 +145,7 @@ theorem inv3_do_finish {H : Home} {g : Hist} {ru rr : List UOp} {past future : L
 
 /-- a local change with one operation of the mixed alphabet (nothing was undone yet: `ρ = id`) -/
 theorem inv3_doMEdit {H : Home} {g : Hist} {ru rr : List UOp} {past future : List Doc} {e : MEdit}
-    (i : Inv3 H g.lamport id g ru rr past g.doc future) (hg : GoodOp3 H g.tw g.doc (e.op g.next)) :
+    (i : Inv3 H g.lamport id g ru rr past g.doc future) (hg : GoodOp3 H noTw g.doc (e.op g.next)) :
     ∃ ru', Inv3 H (doMEdit g e).lamport id (doMEdit g e) ru' [] (g.doc :: past) (doMEdit g e).doc [] ∧
       (∀ t, skel (doMEdit g e).doc t = skel g.doc t) ∧
       (ru'.length = ru.length + 1 ∨ maxDepth ≤ ru'.length) := by
@@ -204,7 +223,7 @@ theorem inv3_doMEdit {H : Home} {g : Hist} {ru rr : List UOp} {past future : Lis
         rw [res.node]; simp [aexec, aremove, gr.hp, h1, h2, hAa]
   | increase c delta =>
     obtain ⟨l, v, q, fq, hc, hwd, hwv, hpar, hq⟩ := hg
-    obtain ⟨d', he, res, hpl⟩ := inc_explicit (tw := g.tw) (ts0 := g.next) (ts := g.next) (src := .loc) i.wf i.bd
+    obtain ⟨d', he, res, hpl⟩ := inc_explicit (tw := noTw) (ts0 := g.next) (ts := g.next) (src := .loc) i.wf i.bd
       i.pl hL hc hwd hwv rfl
     have hinv : inv3 H g.doc (.increase c delta g.next) = .increase c (wrap l (-delta)) g.next := by
       simp only [inv3, hc]
@@ -224,9 +243,9 @@ theorem inv3_doMEdit {H : Home} {g : Hist} {ru rr : List UOp} {past future : Lis
       intro h
       have : g.next.lamport = 0 := by rw [h]; rfl
       omega
-    obtain ⟨d', he, hwf, hbd, hpl, hsk, hnode⟩ := step_add (tw := g.tw) (src := .loc) (ts := g.next)
+    obtain ⟨d', he, hwf, hbd, hpl, hsk, hnode⟩ := step_add (tw := noTw) (src := .loc) (ts := g.next)
       (val := UVal.ofVal v g.next) i.wf i.bd i.pl hL hts ga.hp ga.hprev ga.hleaf ga.hrem ga.hpar rfl
-    have he' : uexecute g.doc g.tw .loc (.add p prev (UVal.ofVal v g.next) g.next) =
+    have he' : uexecute g.doc noTw .loc (.add p prev (UVal.ofVal v g.next) g.next) =
         .ok (d', some (.remove p g.next g.next)) := he
     have hAp : absNode g.doc p ≠ none := by rw [ga.hp]; simp
     have hprevN : prev.lamport ≤ g.lamport + 1 := by
